@@ -84,7 +84,9 @@ def run_scripted(inv, method, args, script):
 def replay_readonly(family, method, args, script, variant, check):
     inv = make_inverter(family, variant)
     out = run_scripted(inv, method, list(args), list(script))
-    if check.startswith("C09_only_documented_exceptions"):
+    if check.startswith("C09_only_InverterError"):
+        out["violates"] = out["raised"] is not None and not out["is_inverter_error"]
+    elif check.startswith("C09_only_documented_exceptions"):
         out["violates"] = out["raised"] is not None and not (out["is_inverter_error"] or out["is_value_error"])
     elif check.startswith("C18_only_read_requests"):
         out["violates"] = any(k != "read" for k in out["requests"])
